@@ -19,6 +19,8 @@ Oracle (from the statement):
 Sensitivity (quick tier, scratch copies of /repo/tornado; all caught):
   CL check `>`→`>=` ; chunked `total_size >`→`>=` ; chunked total accumulated after delivery ;
   gzip delegate without size check ; _check_max_bytes `>`→`>=` ; set_max_body_size made sticky (class attr).
+  Seeded (round 10): gzip delegate's cumulative decompressed-size check `>` -> `>=` (a body inflating to exactly the limit
+  refused) was caught at 2 of 3 seeds -> deterministic `edges` family (every limit at -1 / exact / +1 for every framing).
   Seeded (round 8): header re-read after two empty lines without max_bytes -> missed until >= 2 leading empty lines were
   generated in front of the request (pre_blank).  Seeded (round 9): read_until limits counting only bytes that arrive
   after the read starts (bytes already buffered from an earlier read are free) -> missed until a small request was
@@ -417,6 +419,35 @@ def run_case(ctx, case):
 PARTS = {"main": run_case}
 
 
+def edge_cases():
+    """Deterministic boundary family: every limit at exactly limit-1 / limit / limit+1, for every framing, with and
+    without a per-request override, small and default chunk sizes, one-piece and byte-wise delivery."""
+    noise = bytes(range(16, 64))
+    for framing in ("cl", "chunked", "gzip_cl", "gzip_chunked"):
+        for size_rel in ("lim-1", "lim", "lim+1"):
+            for M, override in ((300, None), (40, None), (5000, 120), (0, 64)):
+                for chunk_size in (None, 7):
+                    for incompressible in (False, True):
+                        for segs in ([1000000], [1] * 40 + [1000000]):
+                            yield dict(L=None, M=M, B=None, override=override, chunk_size=chunk_size, framing=framing,
+                                       decompress=True, size_rel=size_rel, hdr_rel="normal", split=[50, 3, 1000],
+                                       split_mode="list", fill=b"ab", incompressible=incompressible, follow_rel="small",
+                                       segs=segs, leading_blank=b"", lead=False, pre_blank=b"", gz_variant="plain", noise=noise)
+    for hdr_rel in ("L-1", "L", "L+1", "2L"):
+        for L in (64, 200, 4096):
+            for lead in (False, True):
+                for pre_blank in (b"", b"\r\n\r\n"):
+                    for segs in ([1000000], [3] * 30 + [1000000]):
+                        yield dict(L=L, M=None, B=None, override=None, chunk_size=None, framing="cl", decompress=False,
+                                   size_rel="small", hdr_rel=hdr_rel, split=[10], split_mode="one", fill=b"a",
+                                   incompressible=False, follow_rel="none", segs=segs, leading_blank=b"", lead=lead,
+                                   pre_blank=pre_blank, gz_variant="plain", noise=noise)
+
+
+PARTS["edges"] = run_case
+
+
 def main(ctx):
     ctx.run_replays(PARTS)
+    ctx.enumerate(edge_cases(), run_case, name="edges")
     ctx.explore(case_s(), run_case, ctx.n(1200, 40000), name="main")
